@@ -649,7 +649,12 @@ func (fx *FuncCtx) loopHavoc(st *State, b *ssa.BasicBlock) {
 		if srcs := fx.effSrc[k.Key]; len(srcs) > 0 && !fx.effUnknown[k.Key] && strings.HasPrefix(sortOf, "(Array Int ") {
 			var refs []string
 			ok := true
+			freshInLoop := false
 			for _, sv := range srcs {
+				if allocatedIn(sv, body) {
+					freshInLoop = true // written object is allocated inside the loop: above the allocator position at the loop head
+					continue
+				}
 				r, good := fx.resolveRef(st, sv, cells, body, modKeySet)
 				if !good {
 					ok = false
@@ -658,6 +663,15 @@ func (fx *FuncCtx) loopHavoc(st *State, b *ssa.BasicBlock) {
 				if !contains(refs, r) {
 					refs = append(refs, r)
 				}
+			}
+			if ok && freshInLoop {
+				cur := fx.heapGet(st.heap, k)
+				nv := fx.decls.fresh(k.Key, sortOf)
+				fx.decls.n++
+				qo := fmt.Sprintf("q$fl!%d", fx.decls.n)
+				st.assume("(forall ((" + qo + " Int)) (! " + implies(sx("<=", qo, st.top()), eq(sx("select", nv, qo), sx("select", cur, qo))) + " :pattern (" + sx("select", nv, qo) + ")))")
+				st.heap[k.Key] = nv
+				st.noteWrite(k.Key, "fresh-in-loop")
 			}
 			if ok {
 				for _, r := range refs {
@@ -832,6 +846,39 @@ func (fx *FuncCtx) resolveRef(st *State, v ssa.Value, modCells []ssa.Value, body
 		}
 	}
 	return "", false
+}
+
+// allocatedIn: the value denotes an object allocated by an instruction of the given blocks (possibly re-sliced)
+func allocatedIn(v ssa.Value, body map[*ssa.BasicBlock]bool) bool {
+	switch x := v.(type) {
+	case *ssa.Alloc:
+		return body[x.Block()]
+	case *ssa.MakeSlice:
+		return body[x.Block()]
+	case *ssa.Slice:
+		return allocatedIn(x.X, body)
+	case *ssa.UnOp:
+		// load of a local that is assigned exactly once, in the loop, from an allocation
+		if a, ok := x.X.(*ssa.Alloc); ok && x.Op == token.MUL {
+			var src ssa.Value
+			n := 0
+			for _, ref := range *a.Referrers() {
+				if st, isStore := ref.(*ssa.Store); isStore && st.Addr == a {
+					n++
+					src = st.Val
+				}
+			}
+			if n == 1 && src != nil && body[a.Block()] {
+				return allocatedIn(src, body)
+			}
+			if n == 1 && src != nil {
+				if in, ok2 := src.(ssa.Instruction); ok2 && body[in.Block()] {
+					return allocatedIn(src, body)
+				}
+			}
+		}
+	}
+	return false
 }
 
 func chanKeys() []HeapKey {
@@ -1167,6 +1214,20 @@ func (fx *FuncCtx) execAlloc(st *State, in *ssa.Alloc) {
 		st.regs[in] = Val{T: in.Type(), L: &Loc{Kind: LocVararg, Cell: in, T: t}}
 		return
 	}
+	if at, ok := t.Underlying().(*types.Array); ok {
+		// an array object: elements live in the element heap at a fresh base (like make)
+		r := fx.newRef(st, "arr")
+		for _, ec := range fx.mode.comps(at.Elem()) {
+			k := fx.elemKey(at.Elem(), ec)
+			z := fx.mode.zeroOfComp(ec)
+			if ec.kind == "str" {
+				z = fx.decls.strConst("")
+			}
+			fx.heapSet(st, k, sx("store", fx.heapGet(st.heap, k), r, "((as const (Array "+fx.mode.lenSort()+" "+ec.sort+")) "+z+")"))
+		}
+		st.regs[in] = Val{T: in.Type(), C: []string{r}}
+		return
+	}
 	if fx.allocIsObject(in) {
 		r := fx.newRef(st, "new$"+typeStr(t))
 		fx.zeroObject(st, t, r)
@@ -1298,6 +1359,14 @@ func (fx *FuncCtx) execIndexAddr(st *State, in *ssa.IndexAddr) {
 		l := &Loc{Kind: LocElem, Base: x.C[0], Idx: fx.lenOp("+", x.C[1], idx), T: xt.Elem()}
 		fx.set(st, in, Val{T: in.Type(), L: l})
 	case *types.Pointer:
+		if at, isArr := xt.Elem().Underlying().(*types.Array); isArr && x.L == nil && len(x.C) == 1 {
+			idx := fx.toLen(i)
+			g := and(fx.lenCmp("<=", fx.lenNum(0), idx), fx.lenCmp("<", idx, fx.lenNum(at.Len())))
+			fx.oblige(st, "safe", "index", g, in.Pos(), "index in range")
+			st.assume(g)
+			fx.set(st, in, Val{T: in.Type(), L: &Loc{Kind: LocElem, Base: x.C[0], Idx: idx, T: at.Elem()}})
+			return
+		}
 		if x.L != nil && x.L.Kind == LocVararg {
 			c, ok := in.Index.(*ssa.Const)
 			if !ok {
@@ -1323,7 +1392,14 @@ func (fx *FuncCtx) execSlice(st *State, in *ssa.Slice) {
 		fx.set(st, in, v)
 		return
 	}
-	if _, ok := in.X.Type().Underlying().(*types.Slice); !ok {
+	if pt, ok := in.X.Type().Underlying().(*types.Pointer); ok {
+		if at, isArr := pt.Elem().Underlying().(*types.Array); isArr && len(x.C) == 1 {
+			n := fx.lenNum(at.Len())
+			x = Val{T: types.NewSlice(at.Elem()), C: []string{x.C[0], fx.lenNum(0), n, n}}
+		} else {
+			fx.failf("slice of %s", typeStr(in.X.Type()))
+		}
+	} else if _, ok := in.X.Type().Underlying().(*types.Slice); !ok {
 		fx.failf("slice of %s", typeStr(in.X.Type()))
 	}
 	lo := fx.lenNum(0)
